@@ -27,7 +27,8 @@ RULE = ("(0) matrix - every parser configuration x every field prefix (each fiel
         "QueryError only. (2) meaning - an intended query tree over a keyword-analysed corpus is rendered to a query "
         "string with the documented precedence (NOT > AND > OR > ANDNOT/ANDMAYBE/REQUIRE parenthesised; implicit "
         "grouping outermost; field prefixes and field groups, phrases with slop, ranges in all bracket forms, wildcards, "
-        "boosts) and the parsed query must select exactly the documents the reference evaluator selects for the tree. "
+        "boosts; DATETIME terms and ranges typed as YYYY[MM[DD[hh[mm[ss]]]]] at every precision over datetimes clustered "
+        "around one instant; one-sided ranges typed with the GtLtPlugin's six comparison spellings) and the parsed query must select exactly the documents the reference evaluator selects for the tree. "
         "Non-trivial: totality = a string yielding >=2 syntax node kinds; meaning = a tree mixing >=2 operator kinds "
         "whose result is neither empty nor everything. Distinct by SHA-1 of the case.")
 ASSUMPTIONS = [
@@ -219,12 +220,45 @@ MW = ["alfa", "bravo", "charlie", "delta", "echo", "al", "alf"]
 SW = ["the", "of", "it", "m", "bravo", "tango", "sierra", "uniform"]   # for the stop-filtered field s
 
 
+# datetimes clustered around one instant so that every precision of a typed date (year ... second) separates some
+# of them from the others: same minute / other second, same hour / other minute, ... , other year
+MDATES = [[2010, 2, 3, 4, 5, 6], [2010, 2, 3, 4, 5, 0], [2010, 2, 3, 4, 5, 59], [2010, 2, 3, 4, 6, 6], [2010, 2, 3, 4, 4, 59],
+          [2010, 2, 3, 5, 5, 6], [2010, 2, 3, 0, 0, 0], [2010, 2, 3, 23, 59, 59], [2010, 2, 4, 4, 5, 6], [2010, 2, 28, 23, 59, 59],
+          [2010, 3, 1, 0, 0, 0], [2010, 1, 31, 4, 5, 6], [2010, 12, 31, 23, 59, 59], [2011, 1, 1, 0, 0, 0], [2009, 2, 3, 4, 5, 6]]
+DPREC = [4, 6, 8, 10, 12, 14, 14, 12]
+MDATES_W = MDATES[:5] * 4 + MDATES      # the finest distinctions (second, minute) need the densest cluster
+
+
+def date_text(dt, digits):
+    return ("%04d%02d%02d%02d%02d%02d" % tuple(dt))[:digits]
+
+
+def date_floor(dt, digits):
+    n = (digits - 2) // 2          # number of given components
+    return list(dt[:n]) + [1, 1, 0, 0, 0][n - 1:]
+
+
+def date_ceil(dt, digits):
+    import calendar
+    n = (digits - 2) // 2
+    r = list(dt[:n])
+    for i in range(n, 6):
+        if i == 1:
+            r.append(12)
+        elif i == 2:
+            r.append(calendar.monthrange(r[0], r[1])[1])
+        else:
+            r.append([23, 59, 59][i - 3])
+    return r
+
+
 def mdoc_s():
     return st.fixed_dictionaries({"t": st.lists(st.sampled_from(MW), min_size=0, max_size=5),
                                   "s": st.lists(st.sampled_from(SW), min_size=0, max_size=4),
                                   "f": st.sampled_from([None, True, False]),
                                   "w": st.lists(st.sampled_from(["x", "y", "z"]), max_size=2, unique=True),
-                                  "n": st.one_of(st.none(), st.integers(-5, 5))})
+                                  "n": st.one_of(st.none(), st.integers(-5, 5)),
+                                  "d": st.one_of(st.none(), st.sampled_from(MDATES_W), st.sampled_from(MDATES_W))})
 
 
 def mleaf_s():
@@ -256,6 +290,16 @@ def mleaf_s():
                                         "se": se, "ee": ee},
                   st.one_of(st.none(), st.integers(-5, 5)), st.one_of(st.none(), st.integers(-5, 5)),
                   st.booleans(), st.booleans()),
+        # a DATETIME field: YYYY[MM[DD[hh[mm[ss]]]]] means every datetime in that year / month / ... / second
+        # (docs/source/dates.rst), and a range runs from the start of its first to the end of its last period
+        st.builds(lambda dt, p: {"op": "dterm", "dt": dt, "p": p}, st.sampled_from(MDATES_W), st.sampled_from(DPREC)),
+        st.builds(lambda a, pa, b, pb: {"op": "dtrange", "a": a, "pa": pa, "b": b, "pb": pb},
+                  st.one_of(st.none(), st.sampled_from(MDATES_W)), st.sampled_from(DPREC),
+                  st.sampled_from(MDATES_W), st.sampled_from(DPREC)),
+        # one-sided ranges typed with a comparison operator (GtLtPlugin: > < >= <= => =<, after a field name)
+        st.builds(lambda f, rel, x: {"op": "cmp", "f": f, "rel": rel, "x": x[0 if f == "n" else 1]},
+                  st.sampled_from(["n", "n", "t"]), st.sampled_from([">", "<", ">=", "<=", "=>", "=<"]),
+                  st.tuples(st.integers(-5, 5), st.sampled_from(["alfa", "bravo", "c", "delta"]))),
     )
 
 
@@ -319,6 +363,13 @@ def render(q, case, ctx_field="t"):
         return boost(fld(q["f"], q["x"] + "*"), q, True), PREC["leaf"]
     if op == "wildcard":
         return boost(fld(q["f"], q["x"]), q, True), PREC["leaf"]
+    if op == "dterm":
+        return "d:" + date_text(q["dt"], q["p"]), PREC["leaf"]
+    if op == "dtrange":
+        lo = "" if q["a"] is None else date_text(q["a"], q["pa"]) + " "
+        return "d:[%sTO %s]" % (lo, date_text(q["b"], q["pb"])), PREC["leaf"]
+    if op == "cmp":
+        return "%s:%s%s" % (q["f"], q["rel"], q["x"]), PREC["leaf"]
     if op in ("trange", "nrange"):
         # open ends exactly as documented in querylang.rst: "[apple TO]" and "[TO bear]"
         lo = "" if q["start"] is None else "%s " % q["start"]
@@ -363,6 +414,16 @@ def to_ref(q, group):
     if op == "bool":
         # the BOOLEAN field f, modelled as a one-word text field fb holding "true" / "false"
         return {"op": "every", "f": "fb"} if q["x"] == "*" else {"op": "term", "f": "fb", "x": q["x"]}
+    if op == "dterm":
+        return {"op": "drange", "f": "d", "start": date_floor(q["dt"], q["p"]), "end": date_ceil(q["dt"], q["p"])}
+    if op == "dtrange":
+        return {"op": "drange", "f": "d", "start": None if q["a"] is None else date_floor(q["a"], q["pa"]),
+                "end": date_ceil(q["b"], q["pb"])}
+    if op == "cmp":
+        lower = ">" in q["rel"]
+        excl = "=" not in q["rel"]
+        return {"op": "nrange" if q["f"] == "n" else "trange", "f": q["f"], "start": q["x"] if lower else None,
+                "end": None if lower else q["x"], "se": lower and excl, "ee": (not lower) and excl}
     r = dict((k, v) for k, v in q.items() if k != "boost")
     return r
 
@@ -382,13 +443,15 @@ def ops_in(q):
 def run_meaning(case, out):
     schema = fields.Schema(k=fields.ID(stored=True), t=fields.TEXT(analyzer=analysis.SpaceSeparatedTokenizer(), phrase=True),
                            w=fields.KEYWORD, n=fields.NUMERIC(int), s=fields.TEXT(analyzer=analysis.StandardAnalyzer()),
-                           f=fields.BOOLEAN)
+                           f=fields.BOOLEAN, d=fields.DATETIME)
     ix = RamStorage().create_index(schema)
     w = ix.writer()
     docs = []
     for i, d in enumerate(case["docs"]):
         dd = dict(d, k="k%d" % i)
         kw = {"k": dd["k"]}
+        if d.get("d") is not None:
+            kw["d"] = datetime.datetime(*d["d"])
         if d.get("s"):
             kw["s"] = " ".join(d["s"])
         if d.get("f") is not None:
@@ -409,6 +472,8 @@ def run_meaning(case, out):
     qstring, _ = render(tree, case)
     group = qparser.AndGroup if case["group"] == "and" else qparser.OrGroup
     parser = qparser.QueryParser("t", schema, group=group)
+    if "cmp" in set(ops_in(tree)):
+        parser.add_plugin(qplugins.GtLtPlugin())
     try:
         q = parser.parse(qstring)
     except qparser.QueryParserError as e:
